@@ -1183,6 +1183,22 @@ func (w *recWorld) noteGap(st *recSessTrack) {
 	}
 }
 
+// acrossSilence: frame f was captured before the publisher's hours of
+// silence (record-pause) and its last packet reached the recorder after
+// it.  The generator displaces packets by positions in the stream; across
+// the silence that is a delay of hours, which no reorder window covers:
+// nothing is demanded of such a frame.
+func (w *recWorld) acrossSilence(t *recTrack, f int, at time.Duration) bool {
+	if t.sp.PauseAt <= 0 || f >= t.sp.PauseAt {
+		return false
+	}
+	if at > w.t0sim+time.Duration(t.sp.PauseS)*time.Second/2 {
+		w.c.Count("complete.delayed_across_silence", 1)
+		return true
+	}
+	return false
+}
+
 func (w *recWorld) noteFile(cn *diskwriter.VerifConn) {
 	if name := cn.VerifFileName(); name != "" {
 		if f := w.files[name]; f == nil {
@@ -2294,8 +2310,11 @@ func (w *recWorld) judgeComplete(s *recSession, tag string) {
 				}
 			}
 			for f := e0; f < len(t.frames); f++ {
-				ok, _, _ := full(t.frames[f])
+				ok, lastR, _ := full(t.frames[f])
 				if !ok {
+					continue
+				}
+				if w.acrossSilence(t, f, lastR.at) {
 					continue
 				}
 				required++
@@ -2311,6 +2330,9 @@ func (w *recWorld) judgeComplete(s *recSession, tag string) {
 			for _, f := range t.frames[anchor:] {
 				ok, last, _ := full(f)
 				if !ok {
+					continue
+				}
+				if w.acrossSilence(t, f.Idx, last.at) {
 					continue
 				}
 				if hasVideo {
